@@ -29,6 +29,7 @@ def labelOf (j : Json) : R Label := do
     | "sid" => pure (.allocSid (← nat a) (← nat b))
     | "eacq" => pure (.entAcq (← nat a) (← nat b))
     | "erel" => pure (.entRel (← nat a) (← nat b))
+    | "etimeout" => pure (.entTimeout (← nat a) (← nat b))
     | "dbegin" => pure (.dispatchBegin (← nat a) (← nat b))
     | "dend" => pure (.dispatchEnd (← nat a) (← nat b))
     | "cstart" => pure (.closeStart (← nat a) (← nat b))
@@ -82,6 +83,8 @@ def handle (fn : String) (a : Json) : R Json := do
         && Gen.C26.requestRechecksLive && Gen.C26.closeSessionKeepsEntryLock
         && Gen.C26.responseReleasesEntryLock && Gen.C26.deleteClosesUnderEntryLock
         && Gen.C26.reaperLoopShape)),
+      ("closeLockWaitMillis", ofOpt ofNat Gen.C26.closeLockWaitMillis),
+      ("closeProceedsWithoutLock", ofBool Gen.C26.closeProceedsWithoutLock),
       ("fingerprint", Json.str Gen.C26.fingerprint)])
   | "accepts" =>
     let ls ← (← arrF a "events").mapM labelOf
